@@ -230,6 +230,7 @@ func (r *Run) reopenWriterCheck() {
 		r.fail("lock-not-released", "OpenWriter right after Writer.Close failed: "+err.Error())
 		return
 	}
+	settleWriter(w2)
 	rd, err := w2.Reader()
 	if err == nil {
 		c, rerr := ReadAll(rd, r.idspace)
